@@ -354,3 +354,77 @@ Proof.
     + exact Hfuse.
     + unfold w1. rewrite !wuw_put. unfold uevents. destruct (wuw w); reflexivity.
 Qed.
+
+(** ** removal handles of another vector as value sources of push / insert *)
+Lemma sp_take_elem_out c st nx v a k i sk r : sp_take_elem c st nx v a k i sk = Some r -> s_out r <> 1.
+Proof.
+  unfold sp_take_elem. cbv zeta. intros H.
+  repeat match type of H with
+  | Some _ = Some _ => injection H as <-
+  | None = Some _ => discriminate H
+  | context [match ?x with _ => _ end] => destruct x eqn:?
+  | context [if ?x then _ else _] => destruct x eqn:?
+  end; cbn [ok_res panic_res s_out]; discriminate.
+Qed.
+Lemma sp_take_none c st nx v k idx sk r :
+  sp_take c st nx v k idx sk = Some r -> s_out r = 1 -> r = none_res st nx.
+Proof.
+  unfold sp_take. cbv zeta. intros H Ho.
+  destruct (get_a v st) as [a|]; [|discriminate].
+  destruct k.
+  - destruct (length (a_xs a) =? 0)%nat.
+    + destruct sk; try discriminate; injection H as <-; reflexivity.
+    + exfalso. exact (sp_take_elem_out _ _ _ _ _ _ _ _ _ H Ho).
+  - destruct (idx <? N.of_nat (length (a_xs a))).
+    + exfalso. exact (sp_take_elem_out _ _ _ _ _ _ _ _ _ H Ho).
+    + destruct sk; try discriminate; injection H as <-; cbn [panic_res s_out] in Ho; discriminate.
+  - destruct (idx <? N.of_nat (length (a_xs a))).
+    + exfalso. exact (sp_take_elem_out _ _ _ _ _ _ _ _ _ H Ho).
+    + destruct sk; try discriminate; injection H as <-; cbn [panic_res s_out] in Ho; discriminate.
+Qed.
+
+Lemma exec_offer_temp c w st v idx src k sidx r :
+  cfg_wf c -> WRep c w st -> ufuse (wuw w) = None -> adm_vec c w v ->
+  sp_offer_temp c st (unext (wuw w)) v idx src k sidx = Some r ->
+  res_matches c w ((do o <- make_offer c (STemp src k sidx);
+                    offer_into c v o (raw_action c idx);; ret (0, @nil N)) w) r.
+Proof.
+  intros Hwf HW Hfuse Hadm Hr. unfold sp_offer_temp in Hr.
+  set (sidx' := match k with TPop => 0 | _ => sidx end) in *.
+  set (sk := match idx with None => KPush v | Some i => KIns v i end) in *.
+  destruct (sp_take c st (unext (wuw w)) src k sidx' sk) as [r0|] eqn:E0; [|discriminate]. injection Hr as <-.
+  assert (Hpop : k = TPop -> sidx' = 0) by (intros ->; reflexivity).
+  assert (Hadm' : match sk with KPush d | KIns d _ => adm_vec c w d | _ => True end) by (unfold sk; destruct idx; exact Hadm).
+  pose proof (exec_take c w st Erased src k sidx' sk r0 Hwf HW Hfuse Hpop Hadm' E0) as Hm.
+  assert (Eopen : temp_open c src k sidx = temp_open c src k sidx').
+  { unfold sidx', temp_open. destruct k; reflexivity. }
+  unfold take_prog in Hm. cbn [make_offer]. rewrite Eopen.
+  unfold bind at 1 in Hm. unfold bind at 1. unfold bind at 1.
+  destruct (temp_open c src k sidx' w) as [[h|] w1|p w1|f]; cbn [res_matches] in *.
+  - (* the handle exists: the same computation as the sink *)
+    assert (Hsame : (do o <- (do bs <- on_vec src (temp_bytes c h);
+                              ret {| f_ty := c_ty c; f_src := VBytes bs false; f_checked := true; f_drop := DTemp src h |});
+                     offer_into c v o (raw_action c idx);; ret (0, @nil N)) w1
+                    = (do r <- apply_sink c src (known_of Erased) h sk; ret (0, r)) w1).
+    { unfold sk. destruct idx as [i|]; cbn [apply_sink raw_action]; unfold bind;
+        destruct (on_vec src (temp_bytes c h) w1) as [bs w2|p w2|f]; try reflexivity; unfold ret at 1;
+        match goal with |- context [offer_into ?a ?b ?o ?act w2] => destruct (offer_into a b o act w2) as [[] w3|p w3|f] end;
+        reflexivity. }
+    unfold bind at 1 in Hsame. unfold bind at 1 in Hsame.
+    match goal with |- res_matches c w ?X _ => match type of Hsame with ?Y = _ => change X with Y end end.
+    rewrite Hsame.
+    destruct ((do r <- apply_sink c src (known_of Erased) h sk; ret (0, r)) w1) as [[out rets] w2|p w2|f] eqn:Es;
+      cbn [res_matches] in *.
+    + assert (Ho : out = 0).
+      { unfold bind in Es. destruct (apply_sink c src (known_of Erased) h sk w1); try discriminate. unfold ret in Es. congruence. }
+      subst out. rewrite (proj1 Hm). cbn [N.eqb]. exact Hm.
+    + rewrite (proj1 Hm). cbn [N.eqb]. exact Hm.
+    + exact Hm.
+  - (* pop on an empty source: the caller's unwrap panics *)
+    unfold ret in Hm. cbn [res_matches] in Hm. destruct Hm as (Ho & Hp & Hrt & Hso).
+    rewrite Ho. cbn [N.eqb]. pose proof (sp_take_none _ _ _ _ _ _ _ _ E0 Ho) as ->.
+    unfold raise. cbn [res_matches panic_res none_res s_out s_pk s_ret s_st s_evs s_nx] in *.
+    split; [reflexivity|split; [reflexivity|split; [reflexivity|exact Hso]]].
+  - rewrite (proj1 Hm). cbn [N.eqb]. exact Hm.
+  - exact Hm.
+Qed.
